@@ -254,16 +254,8 @@ def u5(ctx, rid):
         raise core.AnchorLost('cut sites')
 
 
-def u6(ctx, rid):
-    """the point lookup merges the active blob with *every* candidate closed blob: every ok-return of the latest-entry merge is
-    dominated by the exhaustion (None) edge of the closed-blob stream; an early return after the active blob is never sound
-    because a closed blob may hold a record with a greater timestamp"""
-    prog = ctx.prog
-    fid = 'storage::core::Storage::<K>::get_latest_entry'
-    f = prog.body_of(fid)
-    if f is None:
-        raise core.AnchorLost(fid)
-    key = 'merge-consults-closed-blobs|' + fid
+def _stream_none_edges(f):
+    """blocks entered when a Stream::next() of body f yielded None (the stream is exhausted)"""
     nexts = [c for c in f.calls if c.name == 'next' and ('Stream' in (c.trait or '') or 'StreamExt' in c.path or 'stream' in c.path.lower())]
     none_edges = []
     for c in nexts:
@@ -282,9 +274,36 @@ def u6(ctx, rid):
                             hit = True
                     if not hit and all(v == 1 for v, _ in t['vals']):
                         none_edges.append(t['otherwise'])
+    return none_edges
+
+
+def _exhausts_closed_blobs(f):
+    ne = _stream_none_edges(f)
+    exits = [bb for (bb, k, _) in core.exit_defs(f) if k in ('ok', 'fwd') and bb in f.reachable()]
+    return bool(ne) and bool(exits) and not any(e in f.reach_from([0], avoid_enter=ne) for e in exits)
+
+
+def u6(ctx, rid):
+    """the point lookup merges the active blob with *every* candidate closed blob: every ok-return of the latest-entry merge is
+    dominated by the exhaustion (None) edge of the closed-blob stream - in the body itself or in a helper of the same file
+    that walks the closed blobs (`latest_entry_among_closed_blobs`); an early return after the active blob is never sound
+    because a closed blob may hold a record with a greater timestamp"""
+    prog = ctx.prog
+    fid = 'storage::core::Storage::<K>::get_latest_entry'
+    f = prog.body_of(fid)
+    if f is None:
+        raise core.AnchorLost(fid)
+    key = 'merge-consults-closed-blobs|' + fid
+    none_edges = _stream_none_edges(f)
     exits = [bb for (bb, k, _) in core.exit_defs(f) if k in ('ok', 'fwd') and bb in f.reachable()]
     if not none_edges:
-        ctx.bad(rid, key, f.where(), 'the latest-entry lookup does not iterate the closed blobs to exhaustion')
+        helpers = {prog.fns[g.id].root for g in prog.fns.values() if g.is_coroutine and g.file == f.file and g.id != f.id and _exhausts_closed_blobs(g)}
+        S = core.Summ(prog, lambda c: any(t in helpers for t in prog.resolve(c)))
+        ev = set(S.events(f)) if helpers else set()
+        if ev and not any(e in f.reach_from([0], avoid_enter=ev) for e in exits):
+            ctx.ok(rid, key, f.where(), 'every ok-return follows a helper that walks the closed-blob stream to exhaustion')
+        else:
+            ctx.bad(rid, key, f.where(), 'the latest-entry lookup does not iterate the closed blobs to exhaustion')
     elif any(e in f.reach_from([0], avoid_enter=none_edges) for e in exits):
         bad = [e for e in exits if e in f.reach_from([0], avoid_enter=none_edges)]
         ctx.bad(rid, key, f.where(bad[0]), 'the latest-entry lookup can return Ok before the closed blobs were consulted: a record with a greater timestamp (or a deletion marker) in a closed blob is ignored',
